@@ -300,3 +300,160 @@ def canon_repo(repo) -> int:
         if isinstance(f, FuncInfo) and f.outer is None:
             n += canon_function(f.node)
     return n
+
+
+# --------------------------------------------------------------------------- C6: tables and constants
+def _is_literal(e: ast.expr) -> bool:
+    if isinstance(e, ast.Constant):
+        return True
+    if isinstance(e, ast.UnaryOp) and isinstance(e.op, ast.USub) and isinstance(e.operand, ast.Constant):
+        return True
+    if isinstance(e, ast.Tuple):
+        return all(_is_literal(x) for x in e.elts)
+    return False
+
+
+def fold_tables_function(f, mentioned: frozenset) -> int:
+    """C6: look-ups in module-level literal tables and the constants they yield are folded.
+
+    * ``TABLE[<constant key>]`` where TABLE is a module-level dict literal with constant keys and
+      literal values becomes that value; ``CONST`` where CONST is a module-level literal (number,
+      string, tuple of those) that no rule names becomes the literal;
+    * ``a, b = (c1, c2)`` becomes ``a = c1; b = c2``;
+    * a temporary introduced by the inliner (``name__<n>``) that is assigned exactly once, a literal,
+      is replaced by that literal.
+    All three are value-preserving (module tables are never rebound in this code base: checked - a
+    name that is stored to anywhere in the module outside its definition is left alone)."""
+    import re as _re
+
+    from .astutil import clone
+
+    fn = f.node
+    mod = f.module
+    g = getattr(mod, "globals_", {})
+    rebound = getattr(mod, "_rebound_globals", None)
+    if rebound is None:
+        rebound = set()
+        tree = getattr(mod, "tree", None) or getattr(mod, "node", None)
+        if tree is not None:
+            for n in ast.walk(tree):
+                if isinstance(n, (ast.Global, ast.Nonlocal)):
+                    rebound |= set(n.names)
+                if isinstance(n, (ast.AugAssign,)) and isinstance(n.target, ast.Name):
+                    rebound.add(n.target.id)
+                if isinstance(n, (ast.Subscript, ast.Attribute)) and isinstance(n.ctx, (ast.Store, ast.Del)) and isinstance(n.value, ast.Name):
+                    rebound.add(n.value.id)
+        try:
+            mod._rebound_globals = rebound
+        except Exception:
+            pass
+    local = {n.id for n in ast.walk(fn) if isinstance(n, ast.Name) and isinstance(n.ctx, (ast.Store, ast.Del))} | {a.arg for a in fn.args.posonlyargs + fn.args.args + fn.args.kwonlyargs}
+    changed = 0
+
+    class T(ast.NodeTransformer):
+        def visit_Subscript(self, n):
+            nonlocal changed
+            self.generic_visit(n)
+            if isinstance(n.ctx, ast.Load) and isinstance(n.value, ast.Name) and n.value.id in g and n.value.id not in local and n.value.id not in rebound:
+                tab = g[n.value.id]
+                if isinstance(tab, ast.Dict) and all(isinstance(k, ast.Constant) for k in tab.keys) and isinstance(n.slice, ast.Constant):
+                    for k, v in zip(tab.keys, tab.values):
+                        if k.value == n.slice.value and type(k.value) is type(n.slice.value) and _is_literal(v):
+                            changed += 1
+                            return ast.copy_location(clone(v), n)
+            return n
+
+        def visit_Name(self, n):
+            nonlocal changed
+            if isinstance(n.ctx, ast.Load) and n.id in g and n.id not in local and n.id not in rebound and n.id not in mentioned and n.id.upper() == n.id and _is_literal(g[n.id]) and not (isinstance(g[n.id], ast.Constant) and g[n.id].value is None):
+                changed += 1
+                return ast.copy_location(clone(g[n.id]), n)
+            return n
+
+        def visit_FunctionDef(self, node):
+            return node if node is not fn else self.generic_visit(node)
+
+        visit_AsyncFunctionDef = visit_FunctionDef
+
+    T().visit(fn)
+
+    # a, b = (c1, c2)
+    def split(stmts):
+        nonlocal changed
+        out = []
+        for st in stmts:
+            for fld, lst in list(_blocks(st)) if not isinstance(st, (ast.FunctionDef, ast.AsyncFunctionDef, ast.ClassDef)) else []:
+                setattr(st, fld, split(lst))
+            if isinstance(st, ast.Try):
+                for h in st.handlers:
+                    h.body = split(h.body)
+            if isinstance(st, ast.Assign) and len(st.targets) == 1 and isinstance(st.targets[0], ast.Tuple) and isinstance(st.value, ast.Tuple) and len(st.targets[0].elts) == len(st.value.elts) and all(isinstance(t, ast.Name) for t in st.targets[0].elts) and _is_literal(st.value):
+                for t, v in zip(st.targets[0].elts, st.value.elts):
+                    one = ast.copy_location(ast.Assign(targets=[t], value=v), st)
+                    if hasattr(st, "_origin"):
+                        one._origin = st._origin  # type: ignore[attr-defined]
+                    out.append(one)
+                changed += 1
+                continue
+            out.append(st)
+        return out
+
+    fn.body = split(fn.body)
+
+    # inliner temporaries bound once to a literal
+    stores: dict[str, list] = {}
+    for n in ast.walk(fn):
+        if isinstance(n, ast.Name) and isinstance(n.ctx, (ast.Store, ast.Del)):
+            stores.setdefault(n.id, []).append(n)
+        elif isinstance(n, ast.AugAssign) and isinstance(n.target, ast.Name):
+            stores.setdefault(n.target.id, []).append(n)
+    consts: dict[str, ast.expr] = {}
+    drop = set()
+    for st in ast.walk(fn):
+        if isinstance(st, (ast.Assign, ast.AnnAssign)) and getattr(st, "value", None) is not None:
+            tg = st.targets if isinstance(st, ast.Assign) else [st.target]
+            if len(tg) == 1 and isinstance(tg[0], ast.Name) and (_re.search(r"__\d+$", tg[0].id) or getattr(st, "_origin", None) is not None) and len(stores.get(tg[0].id, [])) == 1 and _is_literal(st.value) and not isinstance(st.value, ast.Tuple):
+                consts[tg[0].id] = st.value
+                drop.add(id(st))
+    if consts:
+
+        class S(ast.NodeTransformer):
+            def visit_Name(self, n):
+                nonlocal changed
+                if isinstance(n.ctx, ast.Load) and n.id in consts:
+                    changed += 1
+                    return ast.copy_location(clone(consts[n.id]), n)
+                return n
+
+        S().visit(fn)
+
+        def prune(stmts):
+            out = []
+            for st in stmts:
+                if id(st) in drop:
+                    continue
+                if not isinstance(st, (ast.FunctionDef, ast.AsyncFunctionDef, ast.ClassDef)):
+                    for fld, lst in list(_blocks(st)):
+                        new = prune(lst)
+                        setattr(st, fld, new if new or fld != "body" else [ast.copy_location(ast.Pass(), st)])
+                    if isinstance(st, ast.Try):
+                        for h in st.handlers:
+                            h.body = prune(h.body) or [ast.copy_location(ast.Pass(), h)]
+                out.append(st)
+            return out
+
+        fn.body = prune(fn.body) or [ast.copy_location(ast.Pass(), fn)]
+    if changed:
+        ast.fix_missing_locations(fn)
+        par = getattr(fn, "_parent", None)
+        set_parents(fn)
+        fn._parent = par
+    return changed
+
+
+def fold_tables_repo(repo, mentioned: frozenset) -> int:
+    n = 0
+    for f in list(repo.funcs.values()):
+        if isinstance(f, FuncInfo) and f.outer is None:
+            n += fold_tables_function(f, mentioned)
+    return n
